@@ -92,16 +92,9 @@ Proof.
   unfold fn_is_test, mod_is_test, has_attr. rewrite !existsb_rev. split; apply eqb_reflx.
 Qed.
 
-(* the code's call-path table classifies as documented, with or without the NetType::method patch *)
-Lemma classes_documented q path :
-  classify_path (blocking_classes_of q) path = classify_path spec_blocking_classes path.
-Proof.
-  unfold blocking_classes_of. destruct (q_net_bare_type q); [reflexivity|].
-  set (t := map _ blocking_classes). vm_compute in t. subst t.
-  set (u := spec_blocking_classes). vm_compute in u. subst u.
-  cbn [classify_path existsb].
-  repeat match goal with |- context [pat_matches path ?p] => destruct (pat_matches path p) end; reflexivity.
-Qed.
+(* with the NetType::method patch the code's call-path table is the documented one *)
+Lemma classes_documented q : q_net_bare_type q = false -> blocking_classes_of q = spec_blocking_classes.
+Proof. intros H. unfold blocking_classes_of. rewrite H. reflexivity. Qed.
 
 Lemma ostr_eqb_refl a : ostr_eqb a a = true.
 Proof. destruct a; cbn [ostr_eqb]; [apply String.eqb_refl|reflexivity]. Qed.
@@ -110,7 +103,7 @@ Definition linter_flags_off (w : linter) (q : rquirks) : Prop :=
   match w with
   | LUnwrap => q_chain_start_line q = false
   | LClone => q_chain_start_line q = false /\ q_for_header_in_loop q = false
-  | LBlocking => True
+  | LBlocking => q_net_bare_type q = false
   end.
 
 Lemma guard_void w q : context_flags_off q -> linter_flags_off w q ->
@@ -126,7 +119,7 @@ Proof.
       * now rewrite HW.
       * destruct HW as [HW1 HW2]. rewrite HW1, (GF eq_refl). reflexivity.
       * reflexivity.
-    + destruct w; try reflexivity. rewrite (classes_documented q path). apply ostr_eqb_refl.
+    + destruct w; try reflexivity. cbn [linter_flags_off] in HW. rewrite (classes_documented q HW). apply ostr_eqb_refl.
   - assert (GM' : forall i, g_macro (gpush q g k i) = false).
     { intros i. cbn [gpush g_macro]. now rewrite GM, HM. }
     assert (GF' : forall i, w = LClone -> g_forhdr (gpush q g k i) = false).
@@ -156,16 +149,16 @@ Proof.
   exact (file_guard_void LClone q file HC (conj HL HF)).
 Qed.
 
-Theorem blocking_exact q c file : context_flags_off q ->
+Theorem blocking_exact q c file : context_flags_off q -> q_net_bare_type q = false ->
   blocking_report q c file = spec_blocking_report c file.
-Proof. intros HC. apply blocking_guarded. exact (file_guard_void LBlocking q file HC I). Qed.
+Proof. intros HC HN. apply blocking_guarded. exact (file_guard_void LBlocking q file HC HN). Qed.
 
 Theorem report_exact q c file : context_flags_off q -> q_chain_start_line q = false ->
-  q_for_header_in_loop q = false -> q_clone_first_pattern q = false ->
+  q_for_header_in_loop q = false -> q_clone_first_pattern q = false -> q_net_bare_type q = false ->
   report q c file = spec_report c file.
 Proof.
-  intros HC HL HF HP. unfold report, spec_report.
-  now rewrite (unwrap_exact q c file HC HL), (clone_exact q c file HC HL HF HP), (blocking_exact q c file HC).
+  intros HC HL HF HP HN. unfold report, spec_report.
+  now rewrite (unwrap_exact q c file HC HL), (clone_exact q c file HC HL HF HP), (blocking_exact q c file HC HN).
 Qed.
 
 (* ------------------------------------------------------------------ switches *)
@@ -290,7 +283,7 @@ Qed.
 (* ------------------------------------------------------------------ documented tables and options *)
 Lemma documented_tables :
   blocking_fs_functions = fs_functions /\ blocking_net_types = net_types /\ async_wrapper_functions = wrapper_names /\
-  blocking_classes = spec_blocking_classes /\
+  blocking_classes_of ideal = spec_blocking_classes /\
   test_attr_run_types = ["attribute_item"; "line_comment"; "block_comment"] /\ cfg_attr_run_types = test_attr_run_types /\
   map fst unwrap_cfg = ["enabled"; "allow_in_tests"; "allow_expect"] /\
   map fst clone_cfg = ["enabled"; "allow_in_tests"; "detect_clone_in_loop"; "detect_clone_chain"; "detect_unnecessary_clone"] /\
